@@ -292,6 +292,11 @@ for _form in ('sealed', 'crc'):
             h = make_header(E, 'hdr')
             msg = E.bytes('msg', maxlen=65535)
             h.attrs['length'] = S.len(msg)           # the length field describes the payload (Packet.create's contract)
+            # what the sender can produce, for every MTU setMTU may be given (the doc invites decreasing it): the payload of a
+            # datagram is at most MAX_PAYLOAD_SIZE + MESSAGE_OVERHEAD_1 (packer contract: selected-messages-fit-one-datagram)
+            from contracts.c09_codec import set_limits
+            mtu = set_limits(E, E.int('MTU', lo=96, hi=1500))
+            E.assume(ops.blen(msg.t) <= S.term(mtu, 'int') - 28 - 20 - 16)
             E.assume(z3.Or(S.term(h.count, 'int') == 0, z3.And(S.term(h.count, 'int') == 1, ops.blen(msg.t) >= 2)))
             h20 = E.bytes('h20', length=20)
             tail = E.bytes('tail')
